@@ -208,7 +208,7 @@ def FNOM (S : PSys α) : RM α α := fun recs =>
 def magnificationM (S : PSys α) : RM α α := fun recs =>
   let m := marginalRayM S recs
   let n := nList S
-  (first n * first m.1.2 / (last n * last m.1.2), m.2)
+  (first n * first m.1.2 / (mirrorSign S.surfs * last n * last m.1.2), m.2)
 
 def chiefRayM (S : PSys α) : RM α (List α × List α) := fun recs =>
   let inv := inverted S.surfs
